@@ -204,7 +204,7 @@ def main(tier):
         run.extra["samples_reproduced"] = [s["name"] for s in samples if s["pac"]]
         # ---- the decision procedure against MIT Kerberos' PAC verification on the same images (validates PACVerify / PACFormat, not gokrb5)
         import mitcross
-        mp = mitcross.mit_pac_cross(models, vlib.read_ndjson(os.path.join(wd, "images.ndjson")))
+        mp = mitcross.spec_stage(run, mitcross.mit_pac_cross, models, vlib.read_ndjson(os.path.join(wd, "images.ndjson")))
         run.extra["pacverify_vs_mit"] = {k: v for k, v in mp.items() if k != "first"}
         if mp.get("disagreements"):
             vlib.spec_validation_problem(run, "PACVerify and MIT's krb5_pac_verify disagree on %d images: %s" % (mp["disagreements"], mp["first"]))
